@@ -6,7 +6,7 @@
 #[allow(dead_code, unused_imports)]
 pub(crate) mod verif_responder {
     use super::*;
-    use crate::key::online::verif_online::{arr, online_pk, SIGN_CTX};
+    use crate::key::verif_online::{arr, online_pk, SIGN_CTX};
     use crate::merkle::verif_merkle::{depth_of, same, spec_root};
     use crate::message::verif_message::*;
     use crate::stats::AggregatedStats;
@@ -25,6 +25,14 @@ pub(crate) mod verif_responder {
             NOW_CALLS += 1;
             UNIX_EPOCH + Duration::new(NOW_SECS, NOW_NANOS)
         }
+    }
+
+    /// Kani 0.68 cannot compile std::thread::current() (internal compiler error in its intrinsics
+    /// pass on this toolchain).  send_responses names it only inside the arguments of debug!(),
+    /// which are not evaluated at the log level of these harnesses (Off); reaching the stub is
+    /// reported as an environment-model limit (exit 2), never as a pass.
+    pub fn stub_thread_current() -> std::thread::Thread {
+        panic!("VERIF-ENV: thread::current() reached (log level above Off is outside this harness)")
     }
 
     pub fn mk_responder(version: Version, seed: &[u8; 32], grease_pct: u8, grease_seed: [u8; 16]) -> Responder {
@@ -90,11 +98,15 @@ pub(crate) mod verif_responder {
             }
             i += 1;
         }
+        #[cfg(not(kani))]
+        let t_before = SystemTime::now();
         r.send_responses(&mut sock, &mut stats);
 
         // ---- exactly one datagram per request, to its sender, in order
         let w = mio::world();
         vassert!(w.tx.len() == K, "VERIF:C09:exactly-one-datagram-per-accepted-request");
+        // (natively the real clock is read: the stub and its call counter exist only under Kani)
+        #[cfg(kani)]
         vassert!(unsafe { NOW_CALLS } == 1, "VERIF:C11:clock-read-once-per-batch");
         let log = dalek::model_log();
         vassert!(log.nsigns == nsign_before + 1, "VERIF:C02:one-response-signature-per-batch");
@@ -108,6 +120,7 @@ pub(crate) mod verif_responder {
             let (ref bytes, to, ok) = w.tx[j];
             vassert!(to == addr(j), "VERIF:C09:reply-goes-to-the-address-its-request-came-from");
             vassert!(bytes.len() == RL + frame, "VERIF:C07:reply-length-is-the-closed-form");
+            vassert!(bytes.len() <= 1024, "VERIF:C07:reply-not-longer-than-the-smallest-request");
             if ok {
                 sent_ok += 1;
                 bytes_ok += bytes.len() as u64;
@@ -154,9 +167,20 @@ pub(crate) mod verif_responder {
                 Version::RfcDraft13 => (40 + 24, 40 + 8),
             };
             let midp = le64(srep, midp_at);
+            #[cfg(kani)]
             match version {
                 Version::Google => { vassert!(midp == secs * 1_000_000 + (nanos as u64) / 1000, "VERIF:C11:midpoint-is-the-clock-at-signing"); }
                 Version::RfcDraft13 => { vassert!(midp == secs, "VERIF:C11:midpoint-is-the-clock-at-signing"); }
+            }
+            #[cfg(not(kani))]
+            {
+                // replay against the real clock: the midpoint lies between two readings around the batch
+                let (lo, hi) = (t_before.duration_since(UNIX_EPOCH).unwrap(), SystemTime::now().duration_since(UNIX_EPOCH).unwrap());
+                let (a, b) = match version {
+                    Version::Google => (lo.as_micros() as u64, hi.as_micros() as u64),
+                    Version::RfcDraft13 => (lo.as_secs(), hi.as_secs()),
+                };
+                vassert!(a <= midp && midp <= b, "VERIF:C11:midpoint-is-the-clock-at-signing");
             }
             // independent protocol verifier: the path recomputes the signed root from this request's leaf
             let leaf: &[u8] = match version {
@@ -189,7 +213,8 @@ pub(crate) mod verif_responder {
             #[cfg_attr(kani, kani::unwind($unwind))]
             #[cfg_attr(kani, kani::stub(<crate::error::Error as std::convert::From<std::io::Error>>::from, crate::verif_support::stub_error_from_io))]
             #[cfg_attr(kani, kani::stub(std::time::SystemTime::now, crate::responder::verif_responder::stub_now))]
-            #[cfg_attr(kani, kani::stub(std::hash::RandomState::new, crate::stats::aggregated::verif_aggregated::stub_random_state_new))]
+            #[cfg_attr(kani, kani::stub(std::thread::current::current, crate::responder::verif_responder::stub_thread_current))]
+            #[cfg_attr(kani, kani::stub(std::hash::RandomState::new, crate::stats::verif_aggregated::stub_random_state_new))]
             #[cfg_attr(not(kani), test)]
             fn $name() {
                 batch_body::<$k, $nl, $ll, $w, $rl>($ver, $same, $mask);
@@ -199,7 +224,7 @@ pub(crate) mod verif_responder {
 
     // reply length closed form: 4 + 5*4 + 6*4 + 64 (SIG) + NL + d*W + |SREP| + 152 (CERT) + 4 (INDX)
     //   classic |SREP| = 100, IETF |SREP| = 96
-    //@ family c09_batch props=C09,C02,C08,C11,C17,C07,C10 mode=strict mod=responder::verif_responder needs=src/message.rs,src/merkle.rs,src/key/online.rs,src/grease.rs,src/stats/aggregated.rs,src/sign.rs must_cover=COVER:batch-end timeout=900
+    //@ family c09_batch props=C09,C02,C08,C11,C17,C07,C10 mode=strict mod=responder::verif_responder needs=src/message.rs,src/merkle.rs,src/key/online.rs,src/key/mod.rs,src/grease.rs,src/stats/aggregated.rs,src/stats/mod.rs,src/sign.rs must_cover=COVER:batch-end timeout=900
     //@ harness c09_batch_classic_k1 tier=quick shape="classic, batch of 1, nonce 64 symbolic bytes, send ok"
     c09_batch!(c09_batch_classic_k1, 1, 64, 4, 64, 432, Version::Google, false, 0, 12);
     //@ harness c09_batch_ietf_k1 tier=quick shape="IETF, batch of 1, nonce 32 B, request leaf 8 B, send ok"
@@ -212,4 +237,106 @@ pub(crate) mod verif_responder {
     c09_batch!(c09_batch_classic_k2_same_nonce, 2, 64, 4, 64, 496, Version::Google, true, 0, 12);
     //@ harness c09_batch_classic_k3 tier=thorough shape="classic, batch of 3 (padded tree)" required=no
     c09_batch!(c09_batch_classic_k3, 3, 64, 4, 64, 560, Version::Google, false, 0, 13);
+
+    // ------------------------------------------------------------------ C07: no amplification
+    /// A full-size (1024-byte) request whose NONC value is NL bytes long goes through the real
+    /// size gate and parser; if it is accepted it is served in a batch of one and the datagram
+    /// the server would send is measured against the request.
+    pub fn amplify_body<const NL: usize>(version: Version) {
+        dalek::model_reset();
+        ring::rand::model_reset(None);
+        ring::digest::model_reset(false);
+        mio::model_reset();
+        let mut buf = [0u8; 1024];
+        let head: [u8; 8] = vany_bytes::<8>();
+        let nonce_at = match version {
+            Version::Google => {
+                // [2 | off=NL | NONC PAD | nonce (NL) | pad]
+                buf[0..4].copy_from_slice(&2u32.to_le_bytes());
+                buf[4..8].copy_from_slice(&(NL as u32).to_le_bytes());
+                buf[8..12].copy_from_slice(&T_NONC.to_le_bytes());
+                buf[12..16].copy_from_slice(&T_PAD.to_le_bytes());
+                16
+            }
+            Version::RfcDraft13 => {
+                // ROUGHTIM | len | [3 | off=4, 4+NL | VER NONC ZZZZ | ver (4) | nonce (NL) | zzzz]
+                buf[0..8].copy_from_slice(b"ROUGHTIM");
+                buf[8..12].copy_from_slice(&1012u32.to_le_bytes());
+                buf[12..16].copy_from_slice(&3u32.to_le_bytes());
+                buf[16..20].copy_from_slice(&4u32.to_le_bytes());
+                buf[20..24].copy_from_slice(&((4 + NL) as u32).to_le_bytes());
+                buf[24..28].copy_from_slice(&T_VER.to_le_bytes());
+                buf[28..32].copy_from_slice(&T_NONC.to_le_bytes());
+                buf[32..36].copy_from_slice(&T_ZZZZ.to_le_bytes());
+                buf[36..40].copy_from_slice(&0x8000_000cu32.to_le_bytes());
+                40
+            }
+        };
+        buf[nonce_at..nonce_at + 8].copy_from_slice(&head);
+        let srv = [0u8; 32];
+        let parsed = crate::request::nonce_from_request(&buf, 1024, &srv);
+        vcover!(parsed.is_ok(), "COVER:request-accepted");
+        vcover!(parsed.is_err(), "COVER:request-dropped");
+        if let Ok((nonce, ver)) = parsed {
+            vassert!(ver == version, "VERIF:C09:request-routed-to-its-own-protocol");
+            let seed = [7u8; 32];
+            let mut r = mk_responder(version, &seed, 0, [0u8; 16]);
+            let mut stats: Box<dyn ServerStats> = Box::new(AggregatedStats::new());
+            let mut sock = UdpSocket::model();
+            r.reset();
+            match version {
+                Version::Google => r.add_classic_request(nonce, addr(0)),
+                Version::RfcDraft13 => r.add_ietf_request(&buf[..8], nonce, addr(0)),
+            }
+            r.send_responses(&mut sock, &mut stats);
+            let w = mio::world();
+            vassert!(w.tx.len() == 1, "VERIF:C09:exactly-one-datagram-per-accepted-request");
+            vassert!(w.tx[0].0.len() <= 1024, "VERIF:C07:reply-not-longer-than-the-request");
+            core::mem::forget(stats);
+            core::mem::forget(r);
+        }
+    }
+
+    macro_rules! c07_amplify {
+        ($name:ident, $nl:expr, $ver:expr, $unwind:expr) => {
+            #[cfg_attr(kani, kani::proof)]
+            #[cfg_attr(kani, kani::unwind($unwind))]
+            #[cfg_attr(kani, kani::stub(<crate::error::Error as std::convert::From<std::io::Error>>::from, crate::verif_support::stub_error_from_io))]
+            #[cfg_attr(kani, kani::stub(std::time::SystemTime::now, crate::responder::verif_responder::stub_now))]
+            #[cfg_attr(kani, kani::stub(std::thread::current::current, crate::responder::verif_responder::stub_thread_current))]
+            #[cfg_attr(kani, kani::stub(std::hash::RandomState::new, crate::stats::verif_aggregated::stub_random_state_new))]
+            #[cfg_attr(not(kani), test)]
+            fn $name() {
+                amplify_body::<$nl>($ver);
+            }
+        };
+    }
+    //@ family c07_amplify props=C07,C08 mode=strict mod=responder::verif_responder needs=src/message.rs,src/merkle.rs,src/key/online.rs,src/key/mod.rs,src/grease.rs,src/stats/aggregated.rs,src/stats/mod.rs,src/sign.rs,src/request.rs timeout=900
+    //@ harness c07_amplify_classic_nonce1000 tier=quick shape="classic 1024-byte request with a 1000-byte NONC (first 8 bytes symbolic)" must_cover=COVER:request-dropped
+    c07_amplify!(c07_amplify_classic_nonce1000, 1000, Version::Google, 12);
+    //@ harness c07_amplify_ietf_nonce900 tier=quick shape="IETF 1024-byte framed request with a 900-byte NONC" must_cover=COVER:request-dropped
+    c07_amplify!(c07_amplify_ietf_nonce900, 900, Version::RfcDraft13, 12);
+    //@ harness c07_amplify_classic_nonce64 tier=quick shape="classic 1024-byte request with the regular 64-byte NONC" must_cover=COVER:request-accepted required=no
+    c07_amplify!(c07_amplify_classic_nonce64, 64, Version::Google, 12);
+    //@ harness c07_amplify_ietf_nonce32 tier=quick shape="IETF 1024-byte framed request with the regular 32-byte NONC" must_cover=COVER:request-accepted required=no
+    c07_amplify!(c07_amplify_ietf_nonce32, 32, Version::RfcDraft13, 12);
+    //@ harness c07_amplify_classic_nonce0 tier=quick shape="classic 1024-byte request with an empty NONC" must_cover=COVER:request-dropped
+    c07_amplify!(c07_amplify_classic_nonce0, 0, Version::Google, 12);
+
+    //@ family c07_closed_form props=C07 mode=strict mod=responder::verif_responder needs=src/message.rs,src/merkle.rs,src/key/online.rs,src/key/mod.rs,src/grease.rs,src/stats/aggregated.rs,src/stats/mod.rs,src/sign.rs,src/request.rs must_cover=COVER:arith
+    //@ harness c07_reply_size_bound tier=quick shape="every path depth 0..=6 (batch_size <= 64), every request length 1024..=1500, protocol nonce lengths"
+    /// reply length closed form (validated on the real code by c09_batch: 'reply-length-is-the-closed-form'):
+    ///   classic 4+20+24 + 64 + nonce + 64*depth + 100 + 152 + 4;  IETF 12 + 4+20+24 + 64 + nonce + 32*depth + 96 + 152 + 4
+    #[cfg_attr(kani, kani::proof)]
+    #[cfg_attr(not(kani), test)]
+    fn c07_reply_size_bound() {
+        let depth = vany_index(7);
+        let req = vany_usize();
+        vassume(req >= 1024 && req <= 1500);
+        let classic = 48 + 64 + 64 + 64 * depth + 100 + 152 + 4;
+        let ietf = 12 + 48 + 64 + 32 + 32 * depth + 96 + 152 + 4;
+        vcover!(depth == 6, "COVER:arith");
+        vassert!(classic <= req, "VERIF:C07:classic-reply-fits-in-request-for-every-depth");
+        vassert!(ietf <= req, "VERIF:C07:ietf-reply-fits-in-request-for-every-depth");
+    }
 }
